@@ -38,6 +38,10 @@ func hs13Variants() []c02Variant {
 		{Name: "v13-hrr-clientauth", V13: true, HRR: true, ClientAuth: true},
 		{Name: "v13-hrr-mtu300", V13: true, HRR: true, MTU: 300}, // small hellos, fragmented server flight
 		{Name: "v13-mtu300", V13: true, MTU: 300},
+		// both final flights span several datagrams with WHOLE messages per datagram:
+		// server [ServerHello, EncryptedExtensions, CertificateRequest] [Certificate] [CertificateVerify, Finished],
+		// client [Certificate] [CertificateVerify, Finished]
+		{Name: "v13-hrr-clientauth-mtu450", V13: true, HRR: true, ClientAuth: true, MTU: 450},
 		{Name: "v13-mtu120", V13: true, MTU: 120},
 		// dual-stack client (MinVersion 1.2, MaxVersion 1.3): the version is negotiated before the state machine starts
 		{Name: "v13-dualc", V13: true},                      // x dual-stack server
